@@ -4,6 +4,7 @@ CONSTANTS MaxOps = 3
   MaxErr = 3
   GScales <- ScalesAll
   Targets <- TargetsAll
+  Share = FALSE
   Patterns = {1, 2}
 INVARIANT Emitted
 CHECK_DEADLOCK FALSE
